@@ -95,7 +95,9 @@ class MakeFilename(object):
         self._methods = methods
 
     def _set_context(self, context):
-        self._context = context
+        # later SetContext elements change *context* in place,
+        # therefore keep a copy.
+        self._context = deepcopy(context)
 
     def __call__(self, value):
         """Add *output* keys to the *value*'s context.
